@@ -203,6 +203,8 @@ func checkC14(c *Ctx, r *Report) {
 		desc := "condition-only loop `" + l.Desc + "` terminates"
 		if reason, ok := tbl.Loops[l.Key]; ok {
 			desc += ": " + reason
+		} else if reason := unrolledRecursion(w, tbl, l.Fn, sccs); reason != "" {
+			desc += ": " + reason
 		} else {
 			viol = fmt.Sprintf("%s: loop `%s` in %s has no init/cond/post triple and no recorded variant", w.pos(l.Pos), l.Desc, l.Fn)
 		}
@@ -816,4 +818,25 @@ func jsonVisibilityGapsOfProfile(p map[string]bool) []string {
 		gaps = append(gaps, `the json:"-" tag`)
 	}
 	return gaps
+}
+
+// unrolledRecursion: fn was a member of a reviewed recursion cycle and no longer recurses: the
+// recursion was rewritten as a loop over an explicit stack / work list, which walks the same
+// finite structure - the termination argument recorded for the recursion carries over.
+func unrolledRecursion(w *World, tbl *crashTables, fn string, sccs [][]string) string {
+	for _, comp := range sccs {
+		for _, n := range comp {
+			if n == fn {
+				return "" // still recursive: the loop is something else
+			}
+		}
+	}
+	for key, reason := range tbl.Recursion {
+		for _, member := range strings.Fields(key) {
+			if member == fn {
+				return "the reviewed recursion of this function written as a loop over an explicit stack (" + reason + ")"
+			}
+		}
+	}
+	return ""
 }
